@@ -3453,7 +3453,10 @@ class LazyStackedTensorDict(TensorDictBase):
         repeats = list(repeats)
         r_dim = repeats.pop(self.stack_dim)
         tds = [td.repeat(*repeats) for td in self.tensordicts]
-        tds = [td for _ in range(r_dim) for td in tds]
+        # repeat copies the data: every position of the result must own its
+        # member (the same object at several positions would make a write to one
+        # position visible at the others)
+        tds = [td if i == 0 else td.clone() for i in range(r_dim) for td in tds]
         return type(self)(
             *tds,
             stack_dim=self.stack_dim,
@@ -3479,7 +3482,12 @@ class LazyStackedTensorDict(TensorDictBase):
                 f"dim {dim} is out of range for tensordict with shape {self.shape}."
             )
         if dim_corrected == self.stack_dim:
-            new_list_of_tds = [t for t in self.tensordicts for _ in range(repeats)]
+            # repeat_interleave copies the data: one fresh member per position (the
+            # same object at several positions would make a write to one position
+            # visible at the others, and in the stack that is repeated)
+            new_list_of_tds = [
+                t.clone() for t in self.tensordicts for _ in range(repeats)
+            ]
             result = type(self)(
                 *new_list_of_tds,
                 stack_dim=self.stack_dim,
